@@ -119,10 +119,13 @@ var _ net.Conn = &netConn{}
 
 func (nc *netConn) Close() error {
 	nc.writeTimer.Stop()
-	nc.writeCancel()
 	nc.readTimer.Stop()
+	// The close handshake comes first: cancelling the context of a Read or Write
+	// that is in progress makes the connection close without a close frame.
+	err := nc.c.Close(StatusNormalClosure, "")
+	nc.writeCancel()
 	nc.readCancel()
-	return nc.c.Close(StatusNormalClosure, "")
+	return err
 }
 
 func (nc *netConn) Write(p []byte) (int, error) {
